@@ -93,7 +93,11 @@ def wl_codepoints(ctx):
 def wl_cell_len(ctx, rng, case_no):
     cells, _, _ = _mods()
     w = S.pick_weights(rng)
-    s = S.free_string(rng, 80, w, space=0.1, newline=0.02, tab=0.02)
+    r = rng.random()
+    if r < 0.2:
+        s = S.sparse_odd_string(rng, 1, 200)      # both sides of any length threshold
+    else:
+        s = S.free_string(rng, 80 if r < 0.9 else 700, w, space=0.1, newline=0.02, tab=0.02)
     ref = cellref.width(s)
     got = cells.cell_len(s)
     ctx.count("mon.cell_len")
@@ -102,7 +106,7 @@ def wl_cell_len(ctx, rng, case_no):
     got2 = cells.cell_len(s)
     if got2 != ref:
         ctx.violation("cell_len-cached-mismatch", {"s": s, "got": got2, "ref": ref})
-    ctx.hist("string_len", min(len(s) // 16 * 16, 80))
+    ctx.hist("string_len", min(len(s) // 16 * 16, 128))
     ctx.case_done(("cl", s), any(cellref.char_width(c) != 1 for c in s), {"string": s, "cells": ref})
 
 
@@ -167,10 +171,14 @@ def wl_cache_history(ctx, rng, case_no):
 def wl_set_cell_size(ctx, rng, case_no):
     cells, _, _ = _mods()
     w = S.pick_weights(rng)
-    s = S.free_string(rng, rng.choice([5, 20, 60]), w, space=0.1)
+    if rng.random() < 0.4:
+        s = S.sparse_odd_string(rng, 40, 200)
+    else:
+        s = S.free_string(rng, rng.choice([5, 20, 60, 150]), w, space=0.1)
     total = cellref.width(s)
     cut_wide = 0
-    for n in range(0, 101):
+    ctx.hist("set_cell_size_string_len", min(len(s) // 32 * 32, 256))
+    for n in sorted(set(range(0, 101)) | set(range(max(total - 3, 0), total + 4))):
         out = cells.set_cell_size(s, n)
         ctx.count("mon.set_cell_size")
         ok = cellref.width(out) == n
@@ -192,8 +200,11 @@ def wl_set_cell_size(ctx, rng, case_no):
 def wl_chop_cells(ctx, rng, case_no):
     cells, _, _ = _mods()
     w = S.pick_weights(rng)
-    s = S.free_string(rng, rng.choice([5, 20, 60]), w, space=0.1)
-    width = rng.choice([2, 2, 3, 4, 5, 8, 13, 40])
+    if rng.random() < 0.15:
+        s = S.sparse_odd_string(rng, 40, 200)
+    else:
+        s = S.free_string(rng, rng.choice([5, 20, 60, 150]), w, space=0.1)
+    width = rng.choice([2, 2, 3, 4, 5, 8, 13, 40, 70])
     position = rng.randint(0, width) if rng.random() < 0.5 else 0
     pieces = cells.chop_cells(s, width, position=position)
     ctx.count("mon.chop_cells")
@@ -477,7 +488,7 @@ def workloads(tier):
         WL("codepoints", wl_codepoints, kind="custom"),
         WL("cell_len", wl_cell_len, 400000 if big else 30000),
         WL("cache_history", wl_cache_history, 1600 if big else 64),
-        WL("set_cell_size", wl_set_cell_size, 60000 if big else 4000),
+        WL("set_cell_size", wl_set_cell_size, 120000 if big else 10000),
         WL("chop_cells", wl_chop_cells, 400000 if big else 30000),
         WL("adjust_line_length", wl_adjust, 400000 if big else 30000),
         WL("split_and_crop_lines", wl_split_crop, 300000 if big else 20000),
